@@ -400,7 +400,8 @@ def random_histories(rp, n_hist=120, seed=20240917):
             s.complete(run[0]); hist.append('complete ' + run[0])
         else:
             continue
-        waiting = [t['uid'] for pool in s.c._waitpool.values() for t in pool.values()]
+        # (tasks that cannot fit even the idle pilot are the business of check_quiescent above)
+        waiting = [t['uid'] for pool in s.c._waitpool.values() for t in pool.values() if s.fits_idle(t)]
         if waiting:
             yield ['after every running task completed %s still wait' % waiting], hist + ['drain'], k
     return
